@@ -163,7 +163,17 @@ def rand_case(rng, prop, idx):
     for p in range(1, n):                     # the residues of one copy are bonded along the chain
         if fi[p - 1] and fi[p]:
             edges.add((p, p + 1))
-    allrn = sorted(set(rn) | set(names))
+    # the [ atoms ] of a block may carry residue names other than the block name / the names of the residue-graph nodes
+    for b in blocks:
+        if rng.random() < 0.3:
+            for a in b["atoms"]:
+                a["rn"] = ("Q" + a["rn"])[:4]
+    allrn = sorted(set(rn) | set(names) | {a["rn"] for b in blocks for a in b["atoms"]})
+
+    def link_names(block_name):
+        # ApplyLinks first compares a link's residue names with the residue names of the *atoms* of the molecule and later with
+        # those of the residue nodes: a link meant for a residue lists both (which names a link needs is C02's business)
+        return sorted({block_name} | {a["rn"] for b in blocks if b["name"] == block_name for a in b["atoms"]})
     links = []
     for _ in range(rng.randint(1, 3)):
         ordr = rng.choice(["+", "+", ">"])
@@ -173,13 +183,31 @@ def rand_case(rng, prop, idx):
     for l in links:
         if l["sec"] == "constraints":
             l["par"] = l["par"][:2]
+    if c14 and rng.random() < 0.35:
+        # an explicit (by_atom_id) link: a bond between two atoms given by their numbers in the molecule (cross-link, ring closure);
+        # the number of atoms follows from the block sizes (no atom is removed in these force fields)
+        size = {b["name"]: b for b in blocks}
+        total, r = 0, 0
+        while r < n:
+            if fi[r]:
+                total += len(size[fi[r]]["atoms"])
+                r += max(a["res"] for a in size[fi[r]]["atoms"])
+            else:
+                total += len(size[rn[r]]["atoms"])
+                r += 1
+        if total >= 4:
+            i, j = sorted(rng.sample(range(1, total + 1), 2))
+            links.append({"kind": "explicit", "ord": "0", "rns": [], "a": "", "b": "", "sec": "bonds", "par": _params(rng, "bonds", 99), "xb": "",
+                          "ex": [i, j]})
     big = [b["name"] for b in blocks if b is not multi and len(b["atoms"]) >= 2]
     if not c14 and big and rng.random() < 0.35:      # never the only atom of a residue: every residue stays in the molecule
-        links.append({"kind": "remove", "ord": "0", "rns": [rng.choice(big)], "a": "a%d" % rng.randint(1, 3), "b": "", "sec": "", "par": [], "xb": ""})
+        links.append({"kind": "remove", "ord": "0", "rns": link_names(rng.choice(big)), "a": "a%d" % rng.randint(1, 3), "b": "", "sec": "", "par": [], "xb": ""})
     if not c14 and rng.random() < 0.35:
-        links.append({"kind": "retype", "ord": "0", "rns": [rng.choice(names)], "a": "a%d" % rng.randint(1, 2), "b": "", "sec": "",
+        links.append({"kind": "retype", "ord": "0", "rns": link_names(rng.choice(names)), "a": "a%d" % rng.randint(1, 2), "b": "", "sec": "",
                       "par": [rng.choice(TYPES), rng.choice(QS)], "xb": ""})
     # two bond links must not write the same (atoms, version) with the same definition index: a later link wins, no ties
+    for l in links:
+        l.setdefault("ex", [])
     ff = {"blocks": blocks, "links": links, "mods": []}
     start = 1 if rng.random() < 0.3 else rng.randint(1, 12)
     inp = {"ff": idx + 1, "n": n, "start": start, "rn": rn, "fi": fi, "edges": sorted([list(e) for e in edges]), "sel": []}
@@ -354,9 +382,11 @@ def _library_chunk(arg):
     rec.install()
     out = []
     try:
-        for li, (lib, seq, inpath, seqf, name) in enumerate(items):
+        for li, (lib, seq, inpath, seqf, name) in items:       # li: index of the run in the whole list (unique output file)
             rec.reset()
             o = Path(wd) / ("lib_%s_%d.itp" % (lib, li))
+            if o.exists():
+                o.unlink()
             argv = sys.argv
             r = {"lib": lib, "seq": seq, "name": name}
             try:
@@ -576,7 +606,8 @@ def library_items(tier):
 
 def library_doc(ck, tier, wd, max_atoms=400):
     items = library_items(tier)
-    parts = [(ch, str(wd)) for ch in c.chunks(items, c.NPROC)]
+    # every run writes its own file: the chunks run in parallel in one directory
+    parts = [(ch, str(wd)) for ch in c.chunks(list(enumerate(items)), c.NPROC)]
     recs = [r for out in c.pmap(_library_chunk, parts) for r in out]
     ffs, cases, metas = [], [], []
     skipped = {}
